@@ -233,3 +233,17 @@ func (s *Session) GlobalNames() []string {
 	}
 	return names
 }
+
+// Format runs the input through repl.EvalOne with FormatOnly (what `grol -format [-compact]` does)
+// and returns the bytes written.
+func (s *Session) Format(text string, compact bool) (string, []string, bool) {
+	s.arm(nil)
+	defer func() { cur = nil }()
+	o := s.Opts
+	o.FormatOnly = true
+	o.Compact = compact
+	o.All = true
+	w := &RecWriter{}
+	_, panicked, errs, _ := repl.EvalOne(context.Background(), s.St, text, w, o)
+	return w.Take(), errs, panicked
+}
